@@ -3,4 +3,15 @@ EXTENDS Session
 PT_A == << [kind |-> "plain", size |-> 2], [kind |-> "omen", size |-> 3], [kind |-> "plain", size |-> 1] >>
 PT_B == << [kind |-> "plain", size |-> 1], [kind |-> "omen", size |-> 2], [kind |-> "plain", size |-> 1], [kind |-> "omen", size |-> 2] >>
 MCScripts == { <<"block">>, <<"EOF">>, <<"q", "block">>, <<"", "block">>, <<"", "q", "block">>, <<"h", "EOF">> }
+(* ---- liveness (C12: "an explicit quit stops ... after the session state has been saved"; a run that is never asked to quit  ---- *)
+(* ---- ends by itself): both threads keep taking steps (weak fairness); the user's --load (Reload) is not forced             ---- *)
+FairSpec == Spec /\ WF_vars(MainNext) /\ WF_vars(KbdNext)
+EverySessionEnds == []<>(mpc = "done")
+(* once should_exit is set the process ends, and when it ends the save describes what was written: the save file's guess    *)
+(* count is the length of the stream (every session of this configuration starts from an initial or loaded save)            *)
+(* - unless the request came while the LAST pre-terminal was being generated: then the run simply completes, nothing is    *)
+(* left to save and the save file keeps its earlier content (the harness's histories end there)                              *)
+QuitTakesEffect == sexit ~> (mpc = "done" /\ (sav.ng = Len(stream) \/ Len(stream) >= Len(Expected)))
+(* a quit typed by the user is not ignored for ever: the keyboard thread hands it over unless the thread died first          *)
+TypedQuitIsSeen == (kline = "q" /\ kpc = "status" /\ ~placeholder) ~> (sexit \/ mpc = "done")
 =============================================================================
